@@ -73,14 +73,16 @@ fn answer_tokens(r: &Result<Option<Vec<Vec<i32>>>, String>, n: u32) -> String {
     }
 }
 
-/// forget every cursor of the keys of this case.  With the hook: the hook's reset; without: a
+/// forget every cursor of the keys of this case (the case's instance is long-lived and reused
+/// for every run: this is not compensation for a global cursor).  With the hook: the hook's reset; without: a
 /// sequential request for count(A) configurations ends the running cycle and leaves the cursor at 0
 /// (stop = min(c, cur + c) = c, and c mod c = 0).
 fn reset(d: &mut Ddnnf, keys: &[Key]) {
     #[cfg(has_h3)]
     {
-        let _ = (d, keys);
-        cc::verif_reset_enumeration_cache();
+        let _ = keys;
+        // the cursor of THIS model (hook H3b; shared with its clones, i.e. with the workers)
+        reset_cursor(d);
     }
     #[cfg(not(has_h3))]
     for k in keys {
@@ -89,10 +91,11 @@ fn reset(d: &mut Ddnnf, keys: &[Key]) {
     }
 }
 
-/// the current cursor of every key of the case (0 when absent) and the number of foreign keys
+/// the current cursor of every key of the case (0 when absent) and the number of foreign keys,
+/// read from the cursor map of `d` (hook H3b: per instance; clones of `d` show the same map)
 #[cfg(has_h3)]
-fn snapshot(keys: &[Key]) -> (Vec<usize>, usize) {
-    let snap = cc::verif_enumeration_cache_snapshot();
+fn snapshot(d: &Ddnnf, keys: &[Key]) -> (Vec<usize>, usize) {
+    let snap = cursor_snapshot(d);
     let mut v = vec![0usize; keys.len()];
     let mut foreign = 0;
     for (k, cur) in snap {
@@ -110,6 +113,7 @@ struct Case {
     n: u32,
     ddnnf: Ddnnf,
     keys: Vec<Key>,
+    lines: Vec<String>, // the file text the instance was loaded from
 }
 
 fn case_header(case: &Case, mode: &str, reqs: &[Req], refs: &[String], seq: &[String]) -> String {
@@ -191,6 +195,8 @@ mod sched {
         m: Mutex<State>,
         cv: Condvar,
         keys: Vec<Key>,
+        /// a clone of the case's instance: shares the cursor with the workers' clones
+        probe: Ddnnf,
     }
 
     impl Shared {
@@ -206,7 +212,7 @@ mod sched {
         }
         fn event(&self, w: usize, what: &str, with_snapshot: bool) {
             let snap = if with_snapshot {
-                let (v, foreign) = snapshot(&self.keys);
+                let (v, foreign) = snapshot(&self.probe, &self.keys);
                 format!(" {} foreign {}", join(&v), foreign)
             } else {
                 String::new()
@@ -258,7 +264,7 @@ mod sched {
         choose: &mut dyn FnMut(usize, &[usize]) -> usize,
     ) -> RunResult {
         let workers = workers.min(reqs.len());
-        cc::verif_reset_enumeration_cache();
+        reset_cursor(d);
         let shared = Arc::new(Shared {
             m: Mutex::new(State {
                 status: vec![St::Running; workers],
@@ -270,6 +276,7 @@ mod sched {
             }),
             cv: Condvar::new(),
             keys: keys.to_vec(),
+            probe: d.clone(),
         });
         let cb = shared.clone();
         cc::verif_set_sched_callback(Some(Arc::new(move |name: &str| cb.point(name))));
@@ -328,7 +335,7 @@ mod sched {
             }
         }
         cc::verif_set_sched_callback(None);
-        let fin = snapshot(keys);
+        let fin = snapshot(d, keys);
         let st = shared.m.lock().unwrap();
         RunResult {
             schedule,
@@ -506,6 +513,7 @@ fn small_model(idx: usize, rng: &mut Rng) -> Option<Case> {
             n: inp.n,
             ddnnf: d,
             keys,
+            lines: inp.lines.clone(),
         });
     }
     None
@@ -521,6 +529,7 @@ fn free14() -> Case {
         n: 14,
         ddnnf: d,
         keys: vec![Key { lits: vec![], c: 1 << 14 }, Key { lits: vec![3, -7], c: 1 << 12 }],
+        lines,
     }
 }
 
@@ -650,6 +659,7 @@ pub fn run(_kind: &str, ctx: &Ctx, out: &mut dyn Write) {
             n: 4,
             ddnnf: d,
             keys: vec![Key { lits: vec![1], c: 8 }, Key { lits: vec![2, -3], c: 4 }],
+            lines: vec!["t 1 0".to_string()],
         };
         let reqs = vec![
             Req { key: 0, amount: 3, lits: vec![1] },
@@ -675,21 +685,98 @@ pub fn run(_kind: &str, ctx: &Ctx, out: &mut dyn Write) {
         }
         #[cfg(has_h3)]
         {
-            let (v, foreign) = snapshot(&keys);
+            let (v, foreign) = snapshot(&case.ddnnf, &keys);
             writeln!(s, "fin 0 {} foreign {}", join(&v), foreign).unwrap();
         }
-        // leave every cursor this case may have touched at 0 again (a request for count(A)
-        // configurations ends the running cycle of that spelling)
-        for r in reqs.iter() {
-            let mut a = r.lits.clone();
-            let c = keys[r.key].c;
-            let dd = &mut case.ddnnf;
-            let _ = guarded(|| dd.enumerate(&mut a, c));
-        }
-        reset(&mut case.ddnnf, &keys);
         writeln!(s, "explored 1 sequential").unwrap();
         writeln!(s, "end").unwrap();
         out.write_all(s.as_bytes()).unwrap();
+    }
+
+    // ---------------- who shares a cursor (F21) ----------------
+    // The workers of the stream mode are clones of ONE loaded model and must page through it
+    // TOGETHER (that is what C17 is about); two independently loaded instances - of the same file
+    // even - are two models and must NOT share (C16).  Sequential, no scheduling needed; judged by
+    // the same oracle as every run (the answers of one cursor are those of a sequential run from
+    // position 0, nothing twice within a cycle, final cursor):
+    //   mode clones:       the requests go round-robin to the instance and two clones of it,
+    //                      ONE run: all answers together must be one sequential run;
+    //   mode independent:  every request goes to instance X and then to instance Y (loaded
+    //                      separately from the same text), run 0 = the answers of X, run 1 = the
+    //                      answers of Y: each must be a sequential run from position 0 of its own.
+    {
+        let nm = if thorough { 24 } else { 6 };
+        let mut done = 0;
+        let mut idx = 0;
+        while done < nm && idx < 40 * nm {
+            idx += 1;
+            let mut case = match small_model(100_000 + idx, &mut rng) {
+                Some(c) => c,
+                None => continue,
+            };
+            done += 1;
+            let keys = case.keys.clone();
+            let which: Vec<usize> = (0..8).map(|_| rng.below(2) as usize).collect();
+            let small_amounts = |c: usize| -> Vec<usize> { amounts_for(c) };
+            let reqs = make_reqs(&mut rng, &keys, &which, &small_amounts);
+            let lines = case.lines.clone();
+            let n = case.n;
+            let base = case.id.clone();
+            // ---- clones
+            let (refs, seq) = sequential_reference(&mut case, &reqs);
+            case.id = format!("{}-clones", base);
+            let mut s = case_header(&case, "clones", &reqs, &refs, &seq);
+            reset(&mut case.ddnnf, &keys);
+            let mut c1 = case.ddnnf.clone();
+            let mut c2 = case.ddnnf.clone();
+            writeln!(s, "run 0 workers 3 clones sched").unwrap();
+            for (i, r) in reqs.iter().enumerate() {
+                let mut a = r.lits.clone();
+                let amount = r.amount;
+                let dd = match i % 3 { 0 => &mut case.ddnnf, 1 => &mut c1, _ => &mut c2 };
+                let res = guarded(|| dd.enumerate(&mut a, amount));
+                writeln!(s, "ans 0 {} {}", i, answer_tokens(&res, n)).unwrap();
+            }
+            #[cfg(has_h3)]
+            {
+                // read through the second clone: the three must show the same map
+                let (v, foreign) = snapshot(&c2, &keys);
+                writeln!(s, "fin 0 {} foreign {}", join(&v), foreign).unwrap();
+            }
+            writeln!(s, "explored 1 clones").unwrap();
+            writeln!(s, "end").unwrap();
+            out.write_all(s.as_bytes()).unwrap();
+            // ---- independent instances of the same file
+            reset(&mut case.ddnnf, &keys);
+            case.id = format!("{}-independent", base);
+            let mut s = case_header(&case, "independent", &reqs, &refs, &seq);
+            if let (Ok(mut x), Ok(mut y)) = (load(&lines, Some(n)), load(&lines, Some(n))) {
+                let mut ax = Vec::new();
+                let mut ay = Vec::new();
+                for r in reqs.iter() {
+                    let amount = r.amount;
+                    let mut a = r.lits.clone();
+                    ax.push(answer_tokens(&guarded(|| x.enumerate(&mut a, amount)), n));
+                    let mut a = r.lits.clone();
+                    ay.push(answer_tokens(&guarded(|| y.enumerate(&mut a, amount)), n));
+                }
+                for (rid, (ans, inst)) in [(ax, &x), (ay, &y)].iter().enumerate() {
+                    writeln!(s, "run {} workers 1 independent sched", rid).unwrap();
+                    for (i, a) in ans.iter().enumerate() {
+                        writeln!(s, "ans {} {} {}", rid, i, a).unwrap();
+                    }
+                    #[cfg(has_h3)]
+                    {
+                        let (v, foreign) = snapshot(inst, &keys);
+                        writeln!(s, "fin {} {} foreign {}", rid, join(&v), foreign).unwrap();
+                    }
+                    let _ = inst;
+                }
+            }
+            writeln!(s, "explored 2 independent").unwrap();
+            writeln!(s, "end").unwrap();
+            out.write_all(s.as_bytes()).unwrap();
+        }
     }
 
     // ---------------- free-running stress (no hook needed) ----------------
@@ -714,7 +801,7 @@ pub fn run(_kind: &str, ctx: &Ctx, out: &mut dyn Write) {
                 }
                 #[cfg(has_h3)]
                 {
-                    let (v, foreign) = snapshot(&ks);
+                    let (v, foreign) = snapshot(&case.ddnnf, &ks);
                     writeln!(s, "fin 0 {} foreign {}", join(&v), foreign).unwrap();
                 }
                 writeln!(s, "explored 1 free").unwrap();
